@@ -27,6 +27,8 @@ type HarnessPlan struct {
 	MapOrder int              `json:"mapOrderMax"`
 	Solver   string           `json:"solver"`
 	Sticky   bool             `json:"mapOrderSticky"`
+	Sched    bool             `json:"schedChoice"`
+	SchedMax int              `json:"maxSchedPoints"`
 	Note     string           `json:"note"`
 	Skip     map[string]bool  `json:"-"`
 }
@@ -150,7 +152,7 @@ func cmdCheck(args []string) {
 				pkg = "zzvh"
 			}
 			cfg := sym.RunConfig{PkgPath: pr.ModPath + "/" + pkg, Harness: in.hp.Fn, Params: in.params, MaxSteps: steps, MaxDepth: 300, MaxMake: 64,
-				Workers: *workers, UsePool: true, SolverBin: in.hp.Solver, Known: known, MapOrderMax: mo, MapOrderSticky: in.hp.Sticky, Deadline: deadline, MaxPaths: 200000}
+				Workers: *workers, UsePool: true, SolverBin: in.hp.Solver, Known: known, MapOrderMax: mo, MapOrderSticky: in.hp.Sticky, SchedChoice: in.hp.Sched, MaxSchedPoints: in.hp.SchedMax, Deadline: deadline, MaxPaths: 200000}
 			in.res = pr.Run(cfg)
 			if len(in.res.Unknown) > 0 && len(in.res.Violations) == 0 && in.hp.Solver != "cvc5" {
 				// second opinion: re-run the whole instance with cvc5 (bit-blasts eagerly; decides some
